@@ -151,7 +151,7 @@ def run(prog, rep):
                     in_loop = bool(st.loops)
                     if in_loop and any(x.kind == "assign" and any(c[0] == "if" and any(y == st.term for y in [c[1]] + list(subterms(c[1]))) for c in x.pc) for x in s.sites):
                         why = "saturation guard `!update.is_empty()` (a no-op update is skipped; the limit is unchanged)"
-                    elif f is en.fn and "compute_valid_domain_for_var" in pt(st.args[0]):
+                    elif (f is en.fn or f.path.startswith(E.ALG)) and "compute_valid_domain_for_var" in pt(st.args[0]):
                         why = "empty-universe shortcut of a domain quantifier (C02-R1 gives the values; they agree with the generic branch on colours with an empty domain)"
                 rep.check(why is not None, "C20-R2", f"{f.name}/{l or st.name}@{st.ordinal}", st.where(), why or "",
                           f"colour-global predicate `{l or st.name}` on a coloured set in {f.path} (reachable from eval_node) is neither a fixed-point termination test nor the "
